@@ -691,8 +691,10 @@ def d5(ctx, prog, ci):
 
                     def callexpr(e, env, mod, func, depth, orig=orig, it=it):
                         r = orig(e, env, mod, func, depth)
-                        if isinstance(r, cf.Sym) and r.term and r.term[0] == 'call' and r.term[1].endswith('.reshape') and isinstance(e.func, ast.Attribute):
-                            r.base = it.ev(e.func.value, env, mod, func, depth)
+                        if isinstance(r, cf.Sym) and r.term and r.term[0] == 'call' and r.term[1].endswith('.reshape') and isinstance(e.func, ast.Attribute) \
+                                and not hasattr(r, 'base'):
+                            # the receiver of the reshape itself (set once, where the value is made: a wrapper returning it is not it)
+                            r.base = getattr(r, 'recv', None) if getattr(r, 'method', None) == 'reshape' else it.ev(e.func.value, env, mod, func, depth)
                         return r
                     it.callexpr = callexpr
                     res = it.call(f, kwargs=dict(key=key, state=state), selfobj=o)
